@@ -796,6 +796,15 @@ func (e *Env) Step(i int, op *Op) error {
 			ks[2] = e.key(*op.L)
 		}
 		sort.Slice(ks, func(i, j int) bool { return e.Cmp.Compare(ks[i], ks[j]) < 0 })
+		settled := false
+		if e.C.Det && e.Tr == nil {
+			// wait for whatever the previous step left running (a reopen starts compactions):
+			// only then is "table bytes in storage" the size of the version SizeOf looks at
+			if err := e.idle(false); err != nil {
+				return err
+			}
+			settled = true
+		}
 		a, aIntact := guarded(ks[0])
 		b, bIntact := guarded(ks[1])
 		c, cIntact := guarded(ks[2])
@@ -811,7 +820,7 @@ func (e *Env) Step(i int, op *Op) error {
 		}
 		// the bound by the table bytes in storage only holds when nothing runs in the background
 		// (otherwise the version SizeOf looked at may hold tables that are gone by now)
-		if total := int64(e.FS.TotalBytes(storage.TypeTable)); e.C.Det && sz[1] > total {
+		if total := int64(e.FS.TotalBytes(storage.TypeTable)); settled && sz[1] > total {
 			return e.fail("SizeOf([%q,%q)) = %d with only %d table bytes in storage (settled state)", ks[0], ks[2], sz[1], total)
 		}
 		e.St.SizeOfs++
